@@ -41,63 +41,93 @@ Lemma bits_not_found a : sf_is_cacheable (N.lor (N.land (N.land (N.land 0 (N.lxo
 Proof. all_dattrs a; vm_compute; reflexivity. Qed.
 
 (* ------------------------------------------------------------------------------------------- the invariant *)
-Definition entry_ok (kd : skind) (h : heap) (k : key) (e : shape * slot) : Prop :=
-  match entry_deps h k e with
-  | (Some (i, a), _, None) => snd e = own_pat i a /\ (kd = SSet -> a_is_accessor a = false -> a_w a = true)
-  | (None, Some _, Some (Some (i, a))) => snd e = proto_pat i a /\ (kd = SSet -> a_is_accessor a = true)
-  | _ => False
-  end.
+(* [sl] says where the uncached lookup of k finds the property for an object of shape s *now*: in the object itself, or
+   in its direct prototype object (whose current shape is the one to remember) *)
+Definition slot_describes (kd : skind) (h : heap) (k : key) (s : shape) (sl : slot) : Prop :=
+  (exists i a, lookup_shape h s k = Some (i, a) /\ sl = own_pat i a /\ (kd = SSet -> a_is_accessor a = false -> a_w a = true))
+  \/
+  (exists p px i a, lookup_shape h s k = None /\ shape_proto h s = Some p /\ get_obj h p = Some px /\
+     lookup_shape h (o_shape px) k = Some (i, a) /\ sl = proto_pat i a /\ (kd = SSet -> a_is_accessor a = true)).
+
+(* what is known about a stored entry at any later time: facts about *shapes* only, which no heap step can change
+   (shared shapes are immutable, a unique shape only ever gets keys appended in place); whether the receiver's prototype
+   object still has the remembered shape, and whether a unique receiver shape has got the key meanwhile, is checked on the hit *)
+Definition entry_ok (kd : skind) (h : heap) (k : key) (e : entry) : Prop :=
+  if has_flag (s_attrs (e_slot e)) sf_PROTOTYPE then
+    match e_pshape e with
+    | None => True
+    | Some ps => exists i a, lookup_shape h ps k = Some (i, a) /\ e_slot e = proto_pat i a /\
+                   (kd = SSet -> a_is_accessor a = true) /\
+                   (is_unique_shape (e_shape e) = false -> lookup_shape h (e_shape e) k = None)
+    end
+  else exists i a, lookup_shape h (e_shape e) k = Some (i, a) /\ e_slot e = own_pat i a /\
+         (kd = SSet -> a_is_accessor a = false -> a_w a = true).
 Definition IC_valid (st : state) : Prop :=
   forall kd n k c, In ((kd, n, k), c) (st_sites st) -> forall e, In e (c_entries c) -> entry_ok kd (st_heap st) k e.
 
 Lemma IC_valid_init : IC_valid init.
 Proof. intros kd n k c H. inversion H. Qed.
 
-Lemma tslot_eqb_eq a b : tslot_eqb a b = true -> a = b.
+(* heaps only grow in what a shape identity promises: a key found in a shape stays found there, at the same slot *)
+Definition umono (h h' : heap) : Prop :=
+  forall u us, nthN (h_ushapes h) u = Some us ->
+    exists us', nthN (h_ushapes h') u = Some us' /\
+      forall k x, lookup_tab (u_tab us) k = Some x -> lookup_tab (u_tab us') k = Some x.
+Lemma umono_refl h : umono h h.
+Proof. intros u us H. eauto. Qed.
+Lemma umono_trans h1 h2 h3 : umono h1 h2 -> umono h2 h3 -> umono h1 h3.
 Proof.
-  destruct a, b. unfold tslot_eqb. simpl. intro H. apply andb_true_iff in H as [H1 H2].
-  apply N.eqb_eq in H1. apply dattrs_eqb_eq in H2. now subst.
+  intros A B u us H. destruct (A u us H) as [us2 [H2 L2]]. destruct (B u us2 H2) as [us3 [H3 L3]].
+  exists us3. split; auto.
 Qed.
-Lemma opt_eqb_eq {A} (f : A -> A -> bool) : (forall a b, f a b = true -> a = b) -> forall x y, opt_eqb f x y = true -> x = y.
-Proof. intros Hf [x|] [y|]; simpl; intro H; try discriminate; auto. f_equal; auto. Qed.
-Lemma deps_eqb_eq a b : deps_eqb a b = true -> a = b.
-Proof.
-  destruct a as [[l1 p1] q1], b as [[l2 p2] q2]. unfold deps_eqb. intro H.
-  apply andb_true_iff in H as [H H3]. apply andb_true_iff in H as [H1 H2].
-  apply (opt_eqb_eq _ tslot_eqb_eq) in H1.
-  apply (opt_eqb_eq N.eqb) in H2; [|intros; now apply N.eqb_eq].
-  apply (opt_eqb_eq _ (opt_eqb_eq _ tslot_eqb_eq)) in H3. now subst.
-Qed.
+Lemma umono_eq h h' : h_ushapes h' = h_ushapes h -> umono h h'.
+Proof. intros E u us H. rewrite E. eauto. Qed.
 
-Lemma first_some_none {A B} (f : A -> option B) l : first_some f l = None -> forall x, In x l -> f x = None.
+Lemma lookup_stable h h' s k x : umono h h' -> lookup_shape h s k = Some x -> lookup_shape h' s k = Some x.
 Proof.
-  induction l; simpl; intros H x Hin; [contradiction|].
-  destruct (f a) eqn:E; [discriminate|]. destruct Hin as [<-|Hin]; auto.
+  intros M. destruct s as [p|u]; [auto|]. unfold lookup_shape, shape_tab.
+  destruct (nthN (h_ushapes h) u) as [us|] eqn:E; [|discriminate].
+  destruct (M u us E) as [us' [-> L]]. auto.
 Qed.
+Lemma lookup_shared_const h h' p k : lookup_shape h (ShShared p) k = lookup_shape h' (ShShared p) k.
+Proof. reflexivity. Qed.
 
-Lemma undisturbed_deps h h' ss : disturbed h h' ss = None ->
-  forall kd n k c e, In ((kd, n, k), c) ss -> In e (c_entries c) -> entry_deps h' k e = entry_deps h k e.
+Lemma entry_ok_mono kd h h' k e : umono h h' -> entry_ok kd h k e -> entry_ok kd h' k e.
 Proof.
-  intros H kd n k c e Hin He. unfold disturbed in H.
-  pose proof (first_some_none _ _ H _ Hin) as H1. simpl in H1.
-  pose proof (first_some_none _ _ H1 _ He) as H2. unfold classify_entry in H2.
-  destruct (deps_eqb (entry_deps h k e) (entry_deps h' k e)) eqn:E.
-  - symmetry. now apply deps_eqb_eq.
-  - exfalso. destruct (entry_deps h k e) as [[l1 p1] q1], (entry_deps h' k e) as [[l2 p2] q2].
-    destruct (negb (opt_eqb tslot_eqb l1 l2)).
-    + destruct (fst e), l1; discriminate.
-    + destruct (negb (opt_eqb N.eqb p1 p2)); discriminate.
+  intros M. unfold entry_ok. destruct (has_flag (s_attrs (e_slot e)) sf_PROTOTYPE).
+  - destruct (e_pshape e) as [ps|]; auto. intros (i & a & L & Hs & Hk & Hn).
+    exists i, a. repeat split; auto. eapply lookup_stable; eauto.
+    intro Hu. destruct (e_shape e) as [p|u]; [|discriminate]. rewrite <- (Hn Hu). reflexivity.
+  - intros (i & a & L & Hs & Hk). exists i, a. repeat split; auto. eapply lookup_stable; eauto.
 Qed.
 
-Lemma entry_ok_deps kd h h' k e : entry_deps h' k e = entry_deps h k e -> entry_ok kd h k e -> entry_ok kd h' k e.
-Proof. unfold entry_ok. intros ->. auto. Qed.
-
-(* old entries survive an undisturbing heap step *)
-Lemma IC_valid_heap_step st h' : IC_valid st -> disturbed (st_heap st) h' (st_sites st) = None ->
+(* old entries survive every heap step *)
+Lemma IC_valid_heap_step st h' : IC_valid st -> umono (st_heap st) h' ->
   IC_valid {| st_heap := h'; st_sites := st_sites st |}.
 Proof.
-  intros Hv Hd kd n k c Hin e He. simpl in *.
-  eapply entry_ok_deps; [eapply undisturbed_deps; eauto | eapply Hv; eauto].
+  intros Hv M kd n k c Hin e He. simpl in *. eapply entry_ok_mono; eauto.
+Qed.
+
+(* a freshly described slot gives a valid entry; a current valid entry describes the receiver *)
+Lemma fresh_entry_ok kd h k s sl : slot_describes kd h k s sl ->
+  entry_ok kd h k {| e_shape := s; e_pshape := pshape_of h s sl; e_slot := sl |}.
+Proof.
+  intros [(i & a & L & -> & Hk) | (p & px & i & a & L0 & P0 & Hpx & L1 & -> & Hk)]; unfold entry_ok, pshape_of; simpl.
+  - destruct (own_pat_facts a) as [-> _]. exists i, a. auto.
+  - destruct (proto_pat_facts a) as [-> _]. rewrite P0, Hpx. exists i, a. auto.
+Qed.
+Lemma current_entry_describes kd h k e : entry_ok kd h k e -> entry_is_current h k e (e_shape e) = true ->
+  slot_describes kd h k (e_shape e) (e_slot e).
+Proof.
+  unfold entry_ok, entry_is_current. destruct (has_flag (s_attrs (e_slot e)) sf_PROTOTYPE); simpl.
+  - destruct (is_unique_shape (e_shape e) && is_some (lookup_shape h (e_shape e) k)) eqn:Eu; [discriminate|].
+    destruct (e_pshape e) as [ps|]; [|discriminate]. intros (i & a & L & Hs & Hk & Hn).
+    destruct (shape_proto h (e_shape e)) as [p|] eqn:P0; [|discriminate].
+    destruct (get_obj h p) as [px|] eqn:Hpx; [|discriminate]. intro Heq. apply shape_eqb_eq in Heq. subst ps.
+    right. exists p, px, i, a. repeat split; auto.
+    destruct (is_unique_shape (e_shape e)) eqn:Eq; [|auto].
+    simpl in Eu. destruct (lookup_shape h (e_shape e) k); [discriminate | reflexivity].
+  - intros (i & a & L & Hs & Hk) _. left. exists i, a. auto.
 Qed.
 
 (* ------------------------------------------------------------------------------------------- site tables *)
@@ -125,14 +155,26 @@ Proof.
     + intros [H|H]; auto. destruct (IH H); auto.
 Qed.
 
-Lemma find_entry_in es s sl : find_entry es s = Some sl -> In (s, sl) es.
+Lemma find_entry_in : forall es s i j e, find_entry es s i = Some (j, e) -> In e es /\ e_shape e = s.
 Proof.
-  induction es as [|[s' sl'] r IH]; simpl; [discriminate|].
-  destruct (shape_eqb s' s) eqn:E.
-  - intro H. inversion H; subst. apply shape_eqb_eq in E. subst. auto.
-  - auto.
+  induction es as [|e' r IH]; simpl; intros s i j e H; [discriminate|].
+  destruct (shape_eqb (e_shape e') s) eqn:E.
+  - inversion H; subst. apply shape_eqb_eq in E. auto.
+  - destruct (IH _ _ _ _ H). auto.
 Qed.
-
+Lemma in_removelast {A} (l : list A) x : In x (removelast l) -> In x l.
+Proof.
+  induction l as [|a [|b r] IH]; simpl; auto. intros [H|H]; auto. right. apply IH. exact H.
+Qed.
+Lemma swap_remove_in {A} (l : list A) i x : In x (swap_remove l i) -> In x l.
+Proof.
+  unfold swap_remove. destruct (rev l) as [|lst t] eqn:E; auto.
+  assert (Hl : In lst l) by (apply in_rev; rewrite E; left; reflexivity).
+  intro H. apply in_app_or in H as [H|H].
+  - rewrite <- (firstn_skipn i l). apply in_or_app. auto.
+  - destruct (Nat.eqb (S i) (length l)); [inversion H|]. destruct H as [<-|H]; auto.
+    apply in_removelast in H. rewrite <- (firstn_skipn (S i) l). apply in_or_app. auto.
+Qed.
 Lemma filter_keep_in {A} (l : list A) keep x : In x (filter_keep l keep) -> In x l.
 Proof.
   revert keep. induction l; destruct keep; simpl; auto.
@@ -160,14 +202,29 @@ Proof.
   - eapply Hv; eauto.
 Qed.
 
-Lemma ic_set_entries c s sl c' ev : ic_set c s sl = (c', ev) ->
-  forall e, In e (c_entries c') -> In e (c_entries c) \/ e = (s, sl).
+Lemma ic_set_entries c h s sl c' ev : ic_set c h s sl = (c', ev) ->
+  forall e, In e (c_entries c') -> In e (c_entries c) \/ e = {| e_shape := s; e_pshape := pshape_of h s sl; e_slot := sl |}.
 Proof.
   unfold ic_set. destruct (c_mega c).
   - intro H; inversion H; subst; auto.
   - destruct (N.ltb (lenN (c_entries c)) sf_PIC_CAPACITY); intro H; inversion H; subst; simpl.
     + intros e He. apply in_app_or in He as [He|[He|[]]]; auto.
     + intros e [].
+Qed.
+
+(* InlineCache::get: a hit is a current entry of the cache for exactly this shape; otherwise the cache only loses an entry *)
+Lemma ic_get_spec c h k s hit c1 ev : ic_get c h k s = (hit, c1, ev) ->
+  (forall e, In e (c_entries c1) -> In e (c_entries c)) /\
+  (forall sl, hit = Some sl -> c1 = c /\ exists e, In e (c_entries c) /\ e_shape e = s /\ e_slot e = sl /\ entry_is_current h k e s = true).
+Proof.
+  unfold ic_get. destruct (c_mega c).
+  - intro H; inversion H; subst. split; auto. intros sl E; discriminate.
+  - destruct (find_entry (c_entries c) s 0) as [[i e]|] eqn:F.
+    + destruct (find_entry_in _ _ _ _ _ F) as [Hin Hs].
+      destruct (entry_is_current h k e s) eqn:Ec; intro H; inversion H; subst; simpl.
+      * split; auto. intros sl E. inversion E; subst. split; auto. exists e. auto.
+      * split; [intros e0 He; eapply swap_remove_in; eauto | intros sl E; discriminate].
+    + intro H; inversion H; subst. split; auto. intros sl E; discriminate.
 Qed.
 
 (* ------------------------------------------------------------------------------------------- bookkeeping of [[Get]] *)
@@ -216,15 +273,14 @@ Lemma otg_cacheable : forall fuel h o k x tr r sl kd,
   get_obj h o = Some x ->
   ordinary_try_get fuel h o k slot_new = Some (tr, r, sl) ->
   sf_is_cacheable (s_attrs sl) = true -> kd <> SSet ->
-  entry_ok kd h k (o_shape x, sl).
+  slot_describes kd h k (o_shape x) sl.
 Proof.
   intros fuel h o k x tr r sl kd Hx H Hc Hkd.
   destruct fuel as [|fuel]; simpl in H; [discriminate|].
   rewrite Hx, gws_eq in H. destruct (lookup_shape h (o_shape x) k) as [[i a]|] eqn:L0.
   - destruct (get_storage (o_store x) (i, a)) as [d|]; [|discriminate].
     assert (E : sl = own_pat i a) by (destruct (d_kind d) as [[v|] w|[[| |f]|] s|]; inversion H; subst; reflexivity).
-    subst sl. unfold entry_ok, entry_deps. simpl. rewrite L0.
-    destruct (own_pat_facts a) as [-> _]. split; [reflexivity | intro; contradiction].
+    subst sl. left. exists i, a. repeat split; auto; try (intro; contradiction).
   - destruct (shape_proto h (o_shape x)) as [p|] eqn:P0.
     + change (slot_or {| s_index := s_index slot_new; s_attrs := sf_set_not_cacheable_if_already_prototype (s_attrs slot_new) |} sf_PROTOTYPE)
         with {| s_index := 0; s_attrs := proto_in |} in H.
@@ -233,8 +289,7 @@ Proof.
       rewrite gws_eq in H. destruct (lookup_shape h (o_shape px) k) as [[i a]|] eqn:L1.
       * destruct (get_storage (o_store px) (i, a)) as [d|]; [|discriminate].
         assert (E : sl = proto_pat i a) by (destruct (d_kind d) as [[v|] w|[[| |f]|] s|]; inversion H; subst; reflexivity).
-        subst sl. unfold entry_ok, entry_deps. simpl. rewrite L0, P0, Op, L1.
-        destruct (proto_pat_facts a) as [-> _]. split; [reflexivity | intro; contradiction].
+        subst sl. right. exists p, px, i, a. repeat split; auto; try (intro; contradiction).
       * exfalso. destruct (shape_proto h (o_shape px)) as [q|].
         -- apply otg_nc in H; [rewrite (not_cacheable_nc _ H) in Hc; discriminate|].
            vm_compute. reflexivity.
@@ -358,46 +413,32 @@ Qed.
 Lemma chain_fuel_SS h : exists f, chain_fuel h = S (S f).
 Proof. unfold chain_fuel. simpl. eauto. Qed.
 
-(* a hit on a valid entry reads what the uncached lookup reads *)
+(* a hit on an entry that describes the receiver reads what the uncached lookup reads *)
 Lemma get_hit_sim : forall kd h k o x sl tr r slu,
-  kd <> SSet -> get_obj h o = Some x -> entry_ok kd h k (o_shape x, sl) -> get_regular h x sl ->
+  kd <> SSet -> get_obj h o = Some x -> slot_describes kd h k (o_shape x) sl -> get_regular h x sl ->
   ordinary_try_get (chain_fuel h) h o k slot_new = Some (tr, r, slu) ->
   exists stg res, hit_store h x sl = Some stg /\ nthN stg (s_index sl) = Some res /\
     tr = fst (hit_get_result sl res) /\ r = Some (snd (hit_get_result sl res)).
 Proof.
   intros kd h k o x sl tr r slu Hkd Hx Hok Hreg H.
   destruct (chain_fuel_SS h) as [f Hf]. rewrite Hf in H.
-  unfold entry_ok, entry_deps in Hok. simpl in Hok.
-  destruct (lookup_shape h (o_shape x) k) as [[i a]|] eqn:L0.
-  - assert (Hsl : sl = own_pat i a).
-    { destruct (shape_proto h (o_shape x)), (has_flag (s_attrs sl) sf_PROTOTYPE); try contradiction; tauto. }
-    subst sl. destruct (get_hit_own h k o x i a tr r slu (S f) Hx L0 Hreg H) as [res [Hn [Ht Hr]]].
+  destruct Hok as [(i & a & L0 & -> & _) | (p & px & i & a & L0 & P0 & Hpx & L1 & -> & _)].
+  - destruct (get_hit_own h k o x i a tr r slu (S f) Hx L0 Hreg H) as [res [Hn [Ht Hr]]].
     exists (o_store x), res. repeat split; auto. apply hit_store_own.
-  - destruct (shape_proto h (o_shape x)) as [p|] eqn:P0; [|contradiction].
-    destruct (has_flag (s_attrs sl) sf_PROTOTYPE); [|contradiction].
-    destruct (get_obj h p) as [px|] eqn:Hpx; [|contradiction].
-    destruct (lookup_shape h (o_shape px) k) as [[i a]|] eqn:L1; [|contradiction].
-    destruct Hok as [Hsl _]. subst sl.
-    destruct (get_hit_proto h k o x p px i a tr r slu f Hx L0 P0 Hpx L1 Hreg H) as [res [Hn [Ht Hr]]].
+  - destruct (get_hit_proto h k o x p px i a tr r slu f Hx L0 P0 Hpx L1 Hreg H) as [res [Hn [Ht Hr]]].
     exists (o_store px), res. repeat split; auto. eapply hit_store_proto; eauto.
 Qed.
 
 Lemma filter_visible_app a b : filter visible (a ++ b) = filter visible a ++ filter visible b.
 Proof. apply filter_app. Qed.
 
-Lemma ic_get_hit c s sl ev : ic_get c s = (Some sl, ev) -> In (s, sl) (c_entries c).
-Proof.
-  unfold ic_get. destruct (c_mega c); [discriminate|].
-  destruct (find_entry (c_entries c) s) eqn:E; [|discriminate].
-  intro H. inversion H; subst. now apply find_entry_in.
-Qed.
-
 Local Opaque ordinary_try_get chain_fuel hit_store.
 
 Lemma sim_get : forall glob stc stu kd n k o outs_u stu',
   kd <> SSet -> IC_valid stc -> st_heap stc = st_heap stu ->
   (forall x sl, get_obj (st_heap stc) o = Some x ->
-     fst (ic_get (site_get (st_sites stc) (kd, n, k)) (o_shape x)) = Some sl -> get_regular (st_heap stc) x sl) ->
+     fst (fst (ic_get (site_get (st_sites stc) (kd, n, k)) (st_heap stc) k (o_shape x))) = Some sl ->
+     get_regular (st_heap stc) x sl) ->
   cached_get false glob stu (kd, n, k) o = Some (outs_u, stu') ->
   exists outs_c stc', cached_get true glob stc (kd, n, k) o = Some (outs_c, stc') /\
     filter visible outs_c = filter visible outs_u /\
@@ -409,32 +450,34 @@ Proof.
   2:{ inversion H; subst. exists [ONoObj], stc. repeat split; auto. }
   destruct (ordinary_try_get (chain_fuel h) h o k slot_new) as [[[tr r] slu]|] eqn:G; [|discriminate].
   simpl in H.
-  destruct (ic_get (site_get (st_sites stc) (kd, n, k)) (o_shape x)) as [hit ev] eqn:I.
+  destruct (ic_get (site_get (st_sites stc) (kd, n, k)) h k (o_shape x)) as [[hit c1] ev] eqn:I.
+  destruct (ic_get_spec _ _ _ _ _ _ _ I) as [Hsub Hhit].
+  assert (Hc1 : forall e, In e (c_entries c1) -> entry_ok kd h k e).
+  { intros e He. apply (cache_entries_ok stc kd n k Hv e). auto. }
   destruct hit as [sl|].
   - (* hit *)
-    pose proof (ic_get_hit _ _ _ _ I) as Hin.
-    pose proof (cache_entries_ok stc kd n k Hv _ Hin) as Hok.
+    destruct (Hhit sl eq_refl) as [-> (e & Hin & Hs & Hsl & Hcur)].
+    pose proof (cache_entries_ok stc kd n k Hv _ Hin) as Hok. fold h in Hok.
+    rewrite <- Hs in Hcur. pose proof (current_entry_describes kd h k e Hok Hcur) as Hd. rewrite Hs, Hsl in Hd.
     assert (Hr : get_regular h x sl) by (apply (Hreg x sl eq_refl); rewrite I; reflexivity).
-    destruct (get_hit_sim kd h k o x sl tr r slu Hkd Hx Hok Hr G) as [stg [res [Hs [Hn [Ht Hrr]]]]].
-    rewrite Hs, Hn. fold (hit_get_result sl res).
+    destruct (get_hit_sim kd h k o x sl tr r slu Hkd Hx Hd Hr G) as [stg [res [Hst [Hn [Ht Hrr]]]]].
+    rewrite Hst, Hn. fold (hit_get_result sl res).
     destruct (hit_get_result sl res) as [tr' v'] eqn:Ehr. simpl in Ht, Hrr. subst tr r.
     inversion H; subst; clear H.
     eexists; eexists; split; [reflexivity|].
     rewrite !filter_visible_app. simpl. repeat split; auto.
-  - (* miss / megamorphic: the same slow path, then possibly one more entry *)
+  - (* miss / megamorphic / stale entry dropped: the same slow path, then possibly one more entry *)
     simpl.
     destruct (sf_is_cacheable (s_attrs slu)) eqn:Ec.
-    + destruct (ic_set (site_get (st_sites stc) (kd, n, k)) (o_shape x) slu) as [c' ev'] eqn:Es.
+    + destruct (ic_set c1 h (o_shape x) slu) as [c' ev'] eqn:Es.
       assert (Hv' : IC_valid {| st_heap := h; st_sites := site_put (st_sites stc) (kd, n, k) c' |}).
       { apply (IC_valid_put stc kd n k c' Hv). intros e He.
-        destruct (ic_set_entries _ _ _ _ _ Es e He) as [Ho | ->].
-        - eapply cache_entries_ok; eauto.
-        - eapply otg_cacheable; eauto. }
+        destruct (ic_set_entries _ _ _ _ _ _ Es e He) as [Ho | ->]; [auto|].
+        apply fresh_entry_ok. eapply otg_cacheable; eauto. }
       destruct r as [v|]; [|destruct glob]; inversion H; subst; clear H;
         (eexists; eexists; split; [reflexivity|]; rewrite !filter_visible_app; simpl; repeat split; auto).
-    + assert (Hv' : IC_valid {| st_heap := h; st_sites := site_put (st_sites stc) (kd, n, k) (site_get (st_sites stc) (kd, n, k)) |}).
-      { apply (IC_valid_put stc kd n k _ Hv). intros e He. eapply cache_entries_ok; eauto. }
+    + assert (Hv' : IC_valid {| st_heap := h; st_sites := site_put (st_sites stc) (kd, n, k) c1 |}).
+      { apply (IC_valid_put stc kd n k _ Hv). auto. }
       destruct r as [v|]; [|destruct glob]; inversion H; subst; clear H;
         (eexists; eexists; split; [reflexivity|]; rewrite !filter_visible_app; simpl; repeat split; auto).
 Qed.
-
